@@ -112,16 +112,16 @@ Definition date_time_format (t : Z) (ind : TimeIndicator) : list Z :=
    cursor on, NUL included.  Reading with nothing left is a read outside the block (None). *)
 Definition schar (b : Z) : Z := if b <? 128 then b else b - 256.
 
-(* while (len-- > 0) to = (to << 3) + (to << 1) + ( *begin++ - 48 );
-   result: value, "shifted a negative int" flag, rest of the text.  With at most four characters
-   per call and |to| starting at 0 no int overflow is possible. *)
+(* while (len-- > 0) to = to * 10 + ( *begin++ - 48 );      (since da4ab8c: no shifts)
+   result: value, the flag handed in (no undefined operation here: with at most four characters
+   per call, starting at 0, |to| stays far below int range), rest of the text. *)
 Fixpoint parse_decimal (len : nat) (rest : list Z) (to : Z) (ub : bool) : option (Z * bool * list Z) :=
   match len with
   | O => Some (to, ub, rest)
   | S k =>
     match rest with
     | [] => None
-    | c :: rest' => parse_decimal k rest' (8 * to + 2 * to + (schar c - 48)) (ub || (to <? 0))
+    | c :: rest' => parse_decimal k rest' (to * 10 + (schar c - 48)) ub
     end
   end.
 
@@ -130,40 +130,38 @@ Definition skip1 (rest : list Z) : list Z := tl rest.
 
 (* ------------------------------------------------------------------ time_to_epoch *)
 Definition mon_days_tab : list Z := [0; 31; 59; 90; 120; 151; 181; 212; 243; 273; 304; 334; 365].
-(* mon_days[i]; an index outside 0..12 reads outside the static table *)
-Definition mon_days (i : Z) : option Z := if i <? 0 then None else nth_error mon_days_tab (Z.to_nat i).
+(* mon_days[tmon] with tmon = tm_mon < 0 ? 0 : tm_mon > 11 ? 11 : tm_mon   (since da4ab8c: a decoded
+   month can be anything, the table index is clamped) *)
+Definition mon_days (i : Z) : Z :=
+  let tmon := if i <? 0 then 0 else if 11 <? i then 11 else i in
+  nth (Z.to_nat tmon) mon_days_tab 0.
 
-(* the day count: tdays after the leap adjustment.  All quantities here are bounded by the
-   parsers (at most four characters per field), far below int range. *)
-Definition epoch_days (ltm : tm) : option Z :=
-  match mon_days (tm_mon ltm) with
-  | None => None
-  | Some md =>
-    let tyears := if tm_year ltm =? 0 then 0 else tm_year ltm - 70 in
-    let tdays := md + (if tm_mday ltm =? 0 then 0 else tm_mday ltm - 1) + tyears * 365
-                 + Z.quot (tyears + 2) 4 in
-    Some (if negb (tm_year ltm =? 0) && (Z.rem (tm_year ltm) 4 =? 0) && (tm_mon ltm <? 2)
-          then tdays - 1 else tdays)
-  end.
+(* the day count: tdays after the leap adjustment (which still looks at the raw month).  All
+   quantities here are bounded by the parsers (at most four characters per field), far below int
+   range. *)
+Definition epoch_days (ltm : tm) : Z :=
+  let tyears := if tm_year ltm =? 0 then 0 else tm_year ltm - 70 in
+  let tdays := mon_days (tm_mon ltm) + (if tm_mday ltm =? 0 then 0 else tm_mday ltm - 1) + tyears * 365
+               + Z.quot (tyears + 2) 4 in
+  if negb (tm_year ltm =? 0) && (Z.rem (tm_year ltm) 4 =? 0) && (tm_mon ltm <? 2)
+  then tdays - 1 else tdays.
 
-(* return tdays * 86400 + (ltm.tm_hour + utcdiff) * 3600 + ltm.tm_min * 60 + ltm.tm_sec;
-   every operand is `int`, so the expression is evaluated in int and only then widened *)
-Definition time_to_epoch_gen (wide : bool) (ltm : tm) (utcdiff : Z) (ub : bool) : option (Z * bool) :=
-  match epoch_days ltm with
-  | None => None
-  | Some tdays =>
-    let '(a, ub) := iop wide (tdays * 86400) ub in
-    let '(b, ub) := iop wide ((tm_hour ltm + utcdiff) * 3600) ub in
-    let '(c, ub) := iop wide (a + b) ub in
-    let '(d, ub) := iop wide (tm_min ltm * 60) ub in
-    let '(e, ub) := iop wide (c + d) ub in
-    let '(f, ub) := iop wide (e + tm_sec ltm) ub in
-    Some (f, ub)
-  end.
+(* return static_cast<time_t>(tdays) * 86400 + (ltm.tm_hour + utcdiff) * 3600 + ltm.tm_min * 60 + ltm.tm_sec;
+   before 4d1009d ([wide = false]) every operand was `int`, so the expression was evaluated in int
+   and only then widened *)
+Definition time_to_epoch_gen (wide : bool) (ltm : tm) (utcdiff : Z) (ub : bool) : Z * bool :=
+  let tdays := epoch_days ltm in
+  let '(a, ub) := iop wide (tdays * 86400) ub in
+  let '(b, ub) := iop wide ((tm_hour ltm + utcdiff) * 3600) ub in
+  let '(c, ub) := iop wide (a + b) ub in
+  let '(d, ub) := iop wide (tm_min ltm * 60) ub in
+  let '(e, ub) := iop wide (c + d) ub in
+  iop wide (e + tm_sec ltm) ub.
 
 (* ------------------------------------------------------------------ parsers *)
 (* outcome of a string constructor: the ticks stored (with the model-only flag "an undefined
-   int operation was executed"), a read outside the text, or the current time *)
+   integer operation was executed": overflow of the 64-bit products, or of the int expression of
+   the code before 4d1009d), a read outside the text, or the current time *)
 Inductive outcome := Ticks (t : Z) (ub : bool) | OOB | Now.
 
 Definition is_now (s : list Z) : bool :=
@@ -198,11 +196,11 @@ Definition date_time_parse_gen (wide : bool) (s : list Z) : outcome :=
                   tm_hour := hour; tm_min := min; tm_sec := sec |} in
     if len =? 21 then
       do (ms, ub, _) <- parse_decimal 3 (skip1 r) 0 ub;
-      do (e, ub) <- time_to_epoch_gen wide tms 0 ub;
+      let '(e, ub) := time_to_epoch_gen wide tms 0 ub in
       let '(a, ub) := lop (e * BILLION) ub in        (* time_to_epoch(tms) * Tickval::billion, in long *)
       Some (lop (ms * MILLION + a) ub)               (* result += ... *)
     else if len =? 17 then
-      do (e, ub) <- time_to_epoch_gen wide tms 0 ub;
+      let '(e, ub) := time_to_epoch_gen wide tms 0 ub in
       Some (lop (e * BILLION) ub)
     else Some (0, ub)).
 
@@ -218,7 +216,7 @@ Definition time_parse_gen (wide : bool) (s : list Z) (timeonly : bool) : outcome
        then added to a signed 64-bit: equal to the mathematical value for two-character fields *)
     let tod (ub : bool) : option (Z * bool) :=
       if timeonly then Some ((hour * 3600 + min * 60 + sec) * BILLION, ub)
-      else do (e, ub) <- time_to_epoch_gen wide tms 0 ub; Some (lop (e * BILLION) ub) in
+      else let '(e, ub) := time_to_epoch_gen wide tms 0 ub in Some (lop (e * BILLION) ub) in
     if len =? 12 then
       do (ms, ub, _) <- parse_decimal 3 (skip1 r) 0 ub;
       do (v, ub) <- tod ub;
@@ -236,7 +234,7 @@ Definition date_parse_gen (wide : bool) (s : list Z) : outcome :=
                        else Some (1, ub));
     let tms := {| tm_year := year - 1900; tm_mon := mon - 1; tm_mday := mday;
                   tm_hour := 0; tm_min := 0; tm_sec := 0 |} in
-    do (e, ub) <- time_to_epoch_gen wide tms 0 ub;
+    let '(e, ub) := time_to_epoch_gen wide tms 0 ub in
     Some (lop (e * BILLION) ub)).
 
 (* ------------------------------------------------------------------ the field classes *)
